@@ -626,6 +626,17 @@ def _views(case, obs):
         last[i] = after
 
 
+def extra_evidence(results):
+    """Whether the (T) obligations are about real programs or vacuous (a source without a linked list)."""
+    import common
+    try:
+        gen = open(os.path.join(common.COQ, "Gen", "C02_Gen.v")).read()
+    except OSError:
+        return {"t_tie": "no generated file"}
+    return {"t_tie": "present: the five helpers were extracted from the source" if "gen_present : bool := true" in gen
+            else "vacuous: the source keeps no hand-written linked list"}
+
+
 def nontrivial(case, obs):
     touched = False
     for op, o, i, before, after in _views(case, obs):
